@@ -165,13 +165,16 @@ def ghost_only(text):
 
 def _apply_section(sec, head, it, data, s0, e0, what, edits, drop, tags_box, ret_box):
     body = "\n".join(sec["text"])
+    for old_, new_ in (getattr(_tls, "renames", None) or {}).items():
+        # a local variable of the function was renamed in the repository: the ghost text follows it
+        body = re.sub(r"(?<![\w.])" + re.escape(old_) + r"\b", new_, body)
     tl = sec["tline"]
     w = head.split()
     kw = w[0].rstrip(":")
     if kw == "tags":
         tags_box[0] = [x.rstrip(":") for x in w[1:]]
     elif kw == "ret":
-        ret_name = w[1]
+        ret_name = (getattr(_tls, "renames", None) or {}).get(w[1], w[1])     # the binder follows a renamed local of the same name
         ret_box[0] = ret_name
         if it["ret"] is None:
             raise GenError(f"{what}: 'ret' given but the function has no return type")
@@ -459,6 +462,11 @@ def expand_fn(repo, d, log, force_stub=()):
     skipped = []
     tags_box, ret_box = [[]], [None]
     _tls.fallback_notes = []
+    _tls.renames = (getattr(_tls, "all_renames", None) or {}).get(f"{rel}::{path}")
+    if _tls.renames:
+        degraded.append("ghost text adapted to renamed locals: " + ", ".join(f"{a}->{b}" for a, b in _tls.renames.items()))
+    if _record_anchors is not None:
+        _record_anchors.setdefault(what, {})["__locals__"] = it.get("locals", [])
     for sec_no, sec in enumerate(d["sections"]):
         head = sec["head"]
         optional = head.startswith("?")
@@ -729,7 +737,7 @@ impl core::ops::BitOrAssign for {name} {{
 DIRECTIVE = re.compile(r"/\*@ (.*?)@\*/", re.S)
 
 
-def expand(repo, template_path, out_path, include_dirs=(), force_stub=()):
+def expand(repo, template_path, out_path, include_dirs=(), force_stub=(), renames=None):
     """Expand a template; returns meta dict (functions, types, edit log, segment map)."""
     text = open(template_path).read()
     # textual includes first:  //@include name
@@ -745,6 +753,7 @@ def expand(repo, template_path, out_path, include_dirs=(), force_stub=()):
             break
         text = text2
     log = []
+    _tls.all_renames = renames or {}
     _tls.anchor_map = {}
     amp = re.sub(r"\.rs$", ".anchors.json", template_path)
     if os.path.exists(amp) and _record_anchors is None:
@@ -793,6 +802,30 @@ def expand(repo, template_path, out_path, include_dirs=(), force_stub=()):
             "log": log, "segmap": segmap, "gen_len": len(blob)}
     verify_fidelity(repo, meta, blob)
     return meta
+
+
+def propose_renames(repo, template_path, fn_key, missing):
+    """fn_key = 'file::path'; missing = identifiers the compiler could not find in that function's spliced text.
+    If the function has as many pattern-bound locals as on the pristine tree, the local at the same position is the new name."""
+    amp = re.sub(r"\.rs$", ".anchors.json", template_path)
+    if not os.path.exists(amp):
+        return {}
+    old = json.load(open(amp)).get(fn_key, {}).get("__locals__")
+    rel, path = fn_key.split("::", 1)
+    try:
+        it = find_item(index(repo, rel), "fn", path, rel)
+    except GenError:
+        return {}
+    cur = it.get("locals", [])
+    if not old or len(old) != len(cur):
+        return {}
+    out = {}
+    for x in missing:
+        if x in old and x not in cur:
+            i = old.index(x)
+            if cur[i] not in old:
+                out[x] = cur[i]
+    return out
 
 
 def verify_fidelity(repo, meta, blob):
